@@ -168,10 +168,35 @@ def summary_parse_ahb(it: Interp, func, args, kwargs):
     if not isinstance(text, str):
         raise Unsupported(f"parse of non-literal string {text!r}")
     try:
-        parts = refsem.parse_ahb_tokens(text)
+        parts = refsem.parse_ahb(text)
     except refsem.RefSyntaxError as err:
-        _syntax_error(it, f"ahb expression: {text} {err}")
-    return ahb_tree(parts)
+        # the AHB grammar itself does not validate the condition parts: they are CONDITION_EXPRESSION tokens
+        parts = _loose_ahb_split(text)
+        if parts is None:
+            _syntax_error(it, f"ahb expression: {text} {err}")
+    return ahb_tree(parts)  # condition parts stay CONDITION_EXPRESSION tokens (text), as the AHB grammar emits them
+
+
+def _loose_ahb_split(text: str):
+    """Indicator structure only (the AHB grammar accepts any run of condition-expression characters as CE)."""
+    import re as _re
+
+    ce = r"(?!\BU\B)[\[\]\(\)U∧O∨X⊻\d\sP\.UB]+"
+    m = _re.fullmatch(rf"(?i:(?P<po>[XOU])(?P<ce>{ce}))", text)
+    if m:
+        return [("po", m.group("po"), m.group("ce"))]
+    parts = []
+    pos = 0
+    rx = _re.compile(rf"(?i:(?P<mm>(?a:M(uss)?|S(oll)?|K(ann)?))(?P<ce>{ce})?)")
+    while pos < len(text):
+        m = rx.match(text, pos)
+        if not m or m.end() == pos:
+            return None
+        if m.group("ce") is None and m.end() != len(text):
+            return None
+        parts.append(("mm", m.group("mm"), m.group("ce")))
+        pos = m.end()
+    return parts or None
 
 
 class Harness:
